@@ -74,7 +74,7 @@ def run(R):
                      '"fails" for a signature = verify_sign returns False or raises']
     C = ChannelContracts(R).install()
     try:
-        npairs = (40 if quick else 2500)
+        npairs = (120 if quick else 2500)
         lengths = [0, 1, 15, 16, 17, 31, 32, 33, 1000] + ([100000] if R.shard == 0 else [])
         for i, (lid, pid, klass) in enumerate(id_pairs(rng, npairs)):
             sa, sb = rng.randbytes(32), rng.randbytes(32)
